@@ -30,6 +30,7 @@ type Session struct {
 	noSafe        bool
 	noFrame       bool
 	probeFalse    bool
+	yamlTree      bool
 	repo          string
 	verifDir      string
 	stale         []string
